@@ -25,7 +25,7 @@ def jsonEscChar (c : Char) : List Char :=
   else if c = '\t' then ['\\', 't']
   else if c.toNat = 8 then ['\\', 'b']
   else if c.toNat = 12 then ['\\', 'f']
-  else if c.toNat < 0x20 ∨ c.toNat > 0x7e ∧ c.toNat ≠ 0x7f then
+  else if c.toNat < 0x20 ∨ c.toNat > 0x7e then
     if c.toNat < 0x10000 then '\\' :: 'u' :: hex4 c.toNat
     else
       let v := c.toNat - 0x10000
